@@ -95,7 +95,8 @@ func genC19(env *core.Env, emit func(core.Case)) {
 				case 4:
 					hr.ALPN = []string{"http/1.1"}
 				case 5:
-					hr.ALPN = []string{"spdy/9"}
+					// protocol ids that are not "h3", however close
+					hr.ALPN = [][]string{{"spdy/9"}, {"h3-29", "h2"}, {"h3-32"}, {"H3", "h2"}, {"h3x"}, {"h2", "h3-29"}}[(hi+k+nrec)%6]
 				}
 				hr.NoDef = r.IntN(3) == 0
 				hr.V4 = [][]byte{{10, 7, byte(hi + 1), byte(k + 1)}} // unique hint: identifies the record
